@@ -1,23 +1,34 @@
 package main
 
 import (
+	"runtime"
 	"fmt"
 	"github.com/nspcc-dev/neo-go/pkg/crypto/hash"
 	"math/big"
-	"os"
 	"strings"
 
 	"golang.org/x/tools/go/ssa"
 )
 
+var feasSites = map[string]int{}
+
 const ipfx = "github.com/nspcc-dev/neo-go/pkg/interop/"
 
-func (e *Engine) feasible(s *State, c *T) bool {
+func (e *Engine) feasible(s *State, c *T) (res bool) {
 	if c.isC() {
 		return c.b
 	}
+	ck := [2]int{s.pc.id, c.id}
+	if r, ok := e.feasCache[ck]; ok {
+		return r
+	}
+	defer func() { e.feasCache[ck] = res }()
 	e.stats.feas++
-	r, _ := e.solver.check(append(append([]*T(nil), e.ranges...), s.pc, c), nil)
+	if progress {
+		_, file, line, _ := runtime.Caller(1)
+		feasSites[fmt.Sprintf("%s:%d", file[strings.LastIndex(file, "/")+1:], line)]++
+	}
+	r, _ := e.solver.check(s.pc, []*T{c}, nil)
 	return r != "unsat"
 }
 
@@ -126,7 +137,7 @@ func (e *Engine) call(fn *ssa.Function, s *St, in *ssa.Call, ip int) (next []suc
 		if e.roDepth > 0 {
 			return nil, []Out{{s.State, true, constBytes("missing call flags: AllowNotify")}}, false
 		}
-		s.State.notifs = &notifNode{s.notifs, notif{e.cur, nm, append([]Value(nil), a...)}, cnt}
+		s.State.notifs = &notifNode{prev: s.notifs, n: notif{e.cur, nm, append([]Value(nil), a...)}, cnt: cnt}
 		return set(UnitV{})
 	case ipfx + "storage.Put":
 		if e.roDepth > 0 {
@@ -565,9 +576,9 @@ func (e *Engine) call(fn *ssa.Function, s *St, in *ssa.Call, ip int) (next []suc
 		if c := e.callers[len(e.callers)-1]; c >= 0 {
 			return set(constBytes(string(e.world.hashOf(e.names[c]))))
 		}
-		// entry script hash: assumed different from every account in play (concrete distinct first byte)
-		b := e.namedBytes("entryscript", 20)
-		return set(BytesV{append([]*T{I(238)}, b.b[1:]...)})
+		// entry script hash: a constant that no account and no symbolic 20-byte input can equal (a script
+		// cannot contain its own hash; see namedBytes)
+		return set(constBytes(entryScriptHash))
 	case ipfx + "native/neo.GetCommittee":
 		var ks []Value
 		for _, k := range e.world.pubs {
@@ -625,55 +636,56 @@ func (e *Engine) put(s *State, key []*T, v Value) {
 	if s.store != nil {
 		n = s.store.n + 1
 	}
-	s.store = &storeNode{s.store, key, v, n}
+	s.store = &storeNode{prev: s.store, key: key, val: v, n: n}
 }
 
 // storageGet walks the log newest-first; undecided key equalities fork the path.
 func (e *Engine) storageGet(s *St, k []*T) []coerced {
 	var out []coerced
 	none := tTrue
+	add := func(c *T, v Value) {
+		if c.isC() && !c.b {
+			return
+		}
+		// merge with an earlier candidate of the same shape
+		for i := range out {
+			if m, ok := mergeVal(c, v, out[i].v); ok {
+				out[i] = coerced{Or(out[i].cond, c), m}
+				return
+			}
+		}
+		out = append(out, coerced{c, v})
+	}
+	done := false
 	for n := s.store; n != nil; n = n.prev {
-		eq := bytesEq(n.key, k)
+		eq := And(n.g(), bytesEq(n.key, k))
 		if eq.isC() && !eq.b {
 			continue
 		}
-		c := And(none, eq)
-		if e.feasible(s.State, c) {
-			v := n.val
-			if v == nil {
-				v = NullV{}
-			}
-			// try to merge with an earlier candidate of the same shape
-			merged := false
-			for i := range out {
-				if m, ok := mergeVal(c, v, out[i].v); ok {
-					out[i] = coerced{Or(out[i].cond, c), m}
-					merged = true
-					break
-				}
-			}
-			if !merged {
-				out = append(out, coerced{c, v})
-			}
+		v := n.val
+		if v == nil {
+			v = NullV{}
 		}
+		add(And(none, eq), v)
 		if eq.isC() && eq.b {
-			return out
+			done = true
+			break
 		}
 		none = And(none, Not(eq))
 	}
-	if e.feasible(s.State, none) {
-		merged := false
-		for i := range out {
-			if m, ok := mergeVal(none, NullV{}, out[i].v); ok {
-				out[i] = coerced{Or(out[i].cond, none), m}
-				merged = true
-			}
-		}
-		if !merged {
-			out = append(out, coerced{none, NullV{}})
+	if !done {
+		add(none, NullV{})
+	}
+	if len(out) <= 1 { // one shape covers every case: no query needed
+		return out
+	}
+	var feas []coerced
+	for _, o := range out {
+		if e.feasible(s.State, o.cond) {
+			feas = append(feas, o)
 		}
 	}
-	return out
+	return feas
 }
 
 type findAlt struct {
@@ -698,12 +710,19 @@ func lexLess(a, b []*T) *T {
 // prefix match) and order are decided per path: undecided conditions fork, feasibility-checked.
 func (e *Engine) storageFind(s *St, prefix []*T, flags int) []findAlt {
 	type ent struct {
-		key []*T
-		val Value
+		key   []*T
+		val   Value
+		guard *T
 	}
 	var log []ent
 	for n := s.store; n != nil; n = n.prev {
-		log = append([]ent{{n.key, n.val}}, log...)
+		if n.key[0] != prefix[0] && n.key[0].isC() && prefix[0].isC() {
+			continue // another contract's namespace
+		}
+		log = append(log, ent{n.key, n.val, n.g()})
+	}
+	for l, r := 0, len(log)-1; l < r; l, r = l+1, r-1 {
+		log[l], log[r] = log[r], log[l]
 	}
 	type cand struct {
 		en   ent
@@ -714,26 +733,37 @@ func (e *Engine) storageFind(s *St, prefix []*T, flags int) []findAlt {
 		if len(en.key) < len(prefix) || en.val == nil {
 			continue
 		}
-		c := bytesEq(en.key[:len(prefix)], prefix)
+		c := And(en.guard, bytesEq(en.key[:len(prefix)], prefix))
 		for _, later := range log[i+1:] {
-			c = And(c, Not(bytesEq(later.key, en.key))) // not overwritten / deleted later
+			c = And(c, Not(And(later.guard, bytesEq(later.key, en.key)))) // not overwritten / deleted later
 		}
 		if c.isC() && !c.b {
 			continue
 		}
 		cands = append(cands, cand{en, c})
 	}
-	if os.Getenv("DEBUG_FIND") != "" {
-		var sb strings.Builder
-		done := map[int]bool{}
-		for _, p := range prefix {
-			fmt.Fprintf(&sb, "%s ", emit(&strings.Builder{}, done, p))
-		}
-		fmt.Printf("FIND prefix len=%d terms=[%s] cands=%d pc=%d\n", len(prefix), sb.String(), len(cands), s.pc.id)
+	// versions of one key written on different (merged) paths form ONE candidate: live where any version is
+	// live, with the value of that version
+	{
+		var grouped []cand
 		for _, c := range cands {
-			k, _ := isConstBytes(BytesV{c.en.key})
-			fmt.Printf("   cand key=%q cond const=%v\n", k, c.cond.isC())
+			done := false
+			for gi := range grouped {
+				g := &grouped[gi]
+				if bytesEq(g.en.key, c.en.key) == tTrue {
+					if m, ok := mergeVal(c.cond, c.en.val, g.en.val); ok {
+						g.en.val = m
+						g.cond = Or(g.cond, c.cond)
+						done = true
+						break
+					}
+				}
+			}
+			if !done {
+				grouped = append(grouped, c)
+			}
 		}
+		cands = grouped
 	}
 	// enumerate membership subsets
 	alts := []findAlt{{tTrue, nil}}
@@ -1002,10 +1032,7 @@ func (e *Engine) itoa(s *St, x *T) []coerced {
 			ds := make([]*T, k)
 			val := I(0)
 			for i := 0; i < k; i++ {
-				ds[i] = Var(fmt.Sprintf("dig%d_%d", e.fresh, i), 'I')
-				r := And(Le(I('0'), ds[i]), Le(ds[i], I('9')))
-				e.ranges = append(e.ranges, r)
-				e.solver.assertBase(r)
+				ds[i] = VarR(fmt.Sprintf("dig%d_%d", e.fresh, i), big.NewInt('0'), big.NewInt('9'))
 				val = Add(Mul(val, I(10)), Sub(ds[i], I('0')))
 			}
 			out = append(out, coerced{And(cond, Eq(x, val)), BytesV{ds}})
